@@ -45,6 +45,10 @@ def run(ctx, crate):
     from .c11 import rule_marker_out_of_band
     rule_marker_out_of_band(ctx, crate)
     rule_expand_at_marker(ctx, crate)
+    # "placeholders of the form {key[:[<^>][width][!]...]}": width, alignment and `!` mean what the grammar says - the step that
+    # applies them pads and cuts by display columns only (escape sequences in a coloured message are not columns: seed C10n)
+    from .c12 import rule_trunc_keeps_width
+    rule_trunc_keeps_width(ctx, crate)
 
 
 def rule_expand_at_marker(ctx, crate, rule="R-WIDE-AT-MARKER"):
